@@ -22,14 +22,14 @@ def _classify(line, r):
     return "descriptor.%s.%s.%s.at%d" % (name, re.sub(r"[^A-Za-z0-9_.]", "_", h.get("file", "?")), h.get("name", "?").replace("/", "_"), r[1])
 
 
-_wire = dict(check_module="Proto.Check", check_fn="check_wire", case_type="wcase",
+_wire = dict(check_module="Proto.Cases", check_fn="check_wire", case_type="wcase",
              case_imports=["Open Scope string_scope."], coq_shard=60)
 
 PROPS["C20"] = dict(
     driver="proto",
     translators=[dict(driver="proto", args=["descriptors"], out="Gen/Descriptors.v")],
     props_file="Props/C20.v",
-    coq_targets=["Proto/Check.vo"],
+    coq_targets=["Proto/Check.vo", "Proto/Cases.vo"],
     check_module="Proto.Check",
     check_fn="check_static",
     case_type="scase",
